@@ -159,6 +159,9 @@ func (h *hookWriter) Write(p []byte) (int, error) {
 type History struct {
 	Ctx  int       `json:"ctx"`
 	Uses []fx.EUse `json:"uses"`
+	// Nonce: before this history is rendered the context is given a CSP nonce with templ.WithNonce
+	// (a nonce middleware inside the CSS middleware, or a nonce chosen after part of the page).
+	Nonce string `json:"nonce,omitempty"`
 }
 
 type CSSRef struct {
@@ -544,6 +547,9 @@ func decide(c Case) error {
 			// an uninitialised context cannot be shared between renders: each render creates its own state
 			ctxs[h.Ctx] = templ.InitializeContext(ctxs[h.Ctx])
 		}
+		if h.Nonce != "" {
+			ctxs[h.Ctx] = templ.WithNonce(ctxs[h.Ctx], h.Nonce)
+		}
 		if err := renderOne(h, ctxs[h.Ctx], st); err != nil {
 			return fmt.Errorf("render: %v", err)
 		}
@@ -555,9 +561,13 @@ func decide(c Case) error {
 		var st *ctxState
 		var rerr error
 		next := http.HandlerFunc(func(w http.ResponseWriter, r *http.Request) {
+			rctx := r.Context()
 			for _, h := range c.Histories {
 				if h.Ctx == id {
-					if err := renderOne(h, r.Context(), st); err != nil {
+					if h.Nonce != "" {
+						rctx = templ.WithNonce(rctx, h.Nonce)
+					}
+					if err := renderOne(h, rctx, st); err != nil {
 						rerr = err
 					}
 				}
@@ -598,6 +608,9 @@ func decide(c Case) error {
 			var buf bytes.Buffer
 			for _, h := range c.Histories {
 				if h.Ctx == id {
+					if h.Nonce != "" {
+						ctx = templ.WithNonce(ctx, h.Nonce)
+					}
 					if err := renderInto(ctx, h.Uses, &buf); err != nil {
 						return fmt.Errorf("render alone: %v", err)
 					}
@@ -758,7 +771,12 @@ func TestPropHistories(t *testing.T) {
 		c := Case{PreInit: rapid.Bool().Draw(t, "preinit")}
 		nh := rapid.IntRange(1, 4).Draw(t, "nhist")
 		for i := 0; i < nh; i++ {
-			c.Histories = append(c.Histories, History{Ctx: rapid.IntRange(0, 2).Draw(t, "ctx"), Uses: genUses(2, 14).Draw(t, "uses")})
+			h := History{Ctx: rapid.IntRange(0, 2).Draw(t, "ctx"), Uses: genUses(2, 14).Draw(t, "uses")}
+			if rapid.IntRange(0, 3).Draw(t, "withNonce") == 0 {
+				h.Nonce = rapid.SampledFrom([]string{"n0nce", "abc123", "r4nd0m=="}).Draw(t, "nonce")
+				rec.Class("nonce set on a context that may already hold rendering state")
+			}
+			c.Histories = append(c.Histories, h)
 		}
 		if rapid.IntRange(0, 3).Draw(t, "mw") == 0 {
 			for i, n := 0, rapid.IntRange(1, 3).Draw(t, "nreg"); i < n; i++ {
